@@ -138,6 +138,7 @@ static inline int64_t spec_cur_i(struct chan *c)
 
 /* witnesses */
 long w_index; int w_copied; int64_t w_old, w_new, w_v0, w_v1, w_v2, w_v3, w_s0, w_s1, w_s2, w_s3;
+long w_n; int64_t w_v4, w_v5, w_s4, w_s5;   /* (the replay driver gets no -DSC_N: the row count is a witness too) */
 WITNESS(sort_cb_input);
 #define WV(k, w, a) ((k) >= SC_N || (w) == (a)[(k)])
 
@@ -163,7 +164,8 @@ __CPROVER_requires(NOSETS(0) && NOSETS(1) && NOSETS(2) && NOSETS(3) && NOSETS(4)
 __CPROVER_requires(DIAG_PRE)
 __CPROVER_requires(WBIND(sort_cb_input, w_index == INP->index && w_copied == SRT->copied && w_old == g_old && w_new == g_new &&
 	WV(0, w_v0, SRT->values) && WV(1, w_v1, SRT->values) && WV(2, w_v2, SRT->values) && WV(3, w_v3, SRT->values) &&
-	WV(0, w_s0, SRT->sorted) && WV(1, w_s1, SRT->sorted) && WV(2, w_s2, SRT->sorted) && WV(3, w_s3, SRT->sorted)))
+	WV(0, w_s0, SRT->sorted) && WV(1, w_s1, SRT->sorted) && WV(2, w_s2, SRT->sorted) && WV(3, w_s3, SRT->sorted) &&
+	w_n == SC_N && WV(4, w_v4, SRT->values) && WV(5, w_v5, SRT->values) && WV(4, w_s4, SRT->sorted) && WV(5, w_s5, SRT->sorted)))
 __CPROVER_assigns(SRT->values[INP->index], __CPROVER_object_whole(SRT->sorted), SRT->copied, __CPROVER_object_whole(SRT->outputs))
 __CPROVER_assigns(SETLOG_FRAME, g_qsort_calls, DIAG_FRAME, g_died)
 __CPROVER_ensures(__CPROVER_return_value == 0 || __CPROVER_return_value == -1)
